@@ -419,6 +419,8 @@ class C01(PropertyCheck):
                 real["idx"] = real["get"] = real["set"] = None
             if real != ans:
                 res.disagreements.append(Disagreement(rq, ans, real, "static helper"))
+        # TorchWrapper: item k of a tuple-returning torch dataset is component index(mode, k) of that dataset's sample
+        self.torch_wrapper_leg(res)
         # Python slice semantics of the model vs CPython, exhaustive small scope
         vals = [None] + list(range(-6, 7))
         steps = [None, 1, 2, 3, -1, -2, -3]
@@ -439,6 +441,56 @@ class C01(PropertyCheck):
                 res.disagreements.append(Disagreement(rq, ans, real, "slice semantics"))
         res.failures.sort(key=lambda f: len(json.dumps(f.input, default=str)))
         return res
+
+    def torch_wrapper_leg(self, res):
+        from torch.utils.data import Dataset
+        from kappadata.wrappers.mode_wrapper import ModeWrapper
+        from kappadata.wrappers.torch_wrapper import TorchWrapper
+
+        class Tup(Dataset):
+            def __init__(self, width, n):
+                self.width, self.n = width, n
+
+            def __len__(self):
+                return self.n
+
+            def __getitem__(self, i):
+                return tuple(("v", c, i) for c in range(self.width))
+
+        names = ["x", "class", "y", "z"]
+        reqs, metas = [], []
+        for width in (1, 2, 3, 4):
+            inner_mode = " ".join(names[:width])
+            for k in range(3 if self.tier == "quick" else 12):
+                want = [self.rng.choice(names[:width] + ["index"]) for _ in range(self.rng.randint(1, 4))]
+                n = self.rng.randint(1, 4)
+                tw = TorchWrapper(Tup(width, n), mode=inner_mode)
+                mw = ModeWrapper(tw, mode=" ".join(want), return_ctx=False)
+                for i in range(-n, n):
+                    got = mw[i]
+                    got = [got] if len(want) == 1 else list(got)
+                    ii = i + n if i < 0 else i
+                    exp = [ii if w == "index" else ("v", inner_mode.split(" ").index(w), ii) for w in want]
+                    res.cases += 1
+                    res.bump("torchwrapper")
+                    res.nontrivial.add(("tw", inner_mode, tuple(want), i))
+                    if got != exp and not any(f.key == "torchwrapper:item" for f in res.failures):
+                        res.failures.append(Failure("torchwrapper:item", f"TorchWrapper(mode='{inner_mode}') under mode '{' '.join(want)}' at {i}: "
+                                                    "item is not component index(mode, item) of the dataset's sample",
+                                                    {"inner_mode": inner_mode, "mode": want, "idx": i}, exp, got))
+                    for w in want:
+                        if w != "index":
+                            reqs.append({"op": "mw.static", "mode": inner_mode, "item": w, "n": width})
+                            metas.append((inner_mode, w, width))
+        for (inner_mode, w, width), ans in zip(metas, self.driver.run(reqs)):
+            if ans["get"] != inner_mode.split(" ").index(w):
+                res.disagreements.append(Disagreement({"inner_mode": inner_mode, "item": w}, ans["get"], inner_mode.split(" ").index(w), "TorchWrapper component index"))
+        # an item that is not in the wrapper's mode is rejected (assertion), not silently mis-addressed
+        try:
+            TorchWrapper(Tup(2, 2), mode="x class").getitem_y(0)
+            res.failures.append(Failure("torchwrapper:reject", "TorchWrapper serves an item that is not in its mode", {"mode": "x class", "item": "y"}, "AssertionError", "value"))
+        except AssertionError:
+            pass
 
     def search(self, budget_s, hints):
         import time
